@@ -938,3 +938,39 @@ macro_rules! beaver_check_n4_variant {
 }
 beaver_check_n4_variant!(c04_beaver_check_n4, 4);
 beaver_check_n4_variant!(c04_beaver_check_n4__c10, 10);
+
+static mut ENV_BITS: [bool; 6] = [false; 6];
+static mut ENV_BITS_NEXT: usize = 0;
+
+/// rand::random::<bool>() as environment: the k-th call returns the k-th of six arbitrary bits.
+fn env_random_bit() -> bool {
+    unsafe {
+        let k = ENV_BITS_NEXT;
+        ENV_BITS_NEXT += 1;
+        if k < 6 { ENV_BITS[k] } else { kani::any() }
+    }
+}
+
+/// C06 - aBit step 1: the party's own mask-share bits are independent draws - bit k of the local
+/// string is the k-th random() result, l + 3*rho of them (rho lowered to 1 inside the cut).
+#[kani::proof]
+#[kani::unwind(8)]
+#[kani::stub(std::fmt::format, no_format)]
+fn c06_fabitn_own_bits_are_fresh_draws() {
+    let b: [bool; 6] = [kani::any(), kani::any(), kani::any(), kani::any(), kani::any(), kani::any()];
+    unsafe {
+        ENV_BITS = b;
+        ENV_BITS_NEXT = 0;
+    }
+    let r = seg_fabitn_head(2);
+    let ok = r.is_ok();
+    assert!(ok, "C06:abit:step-1-Ok");
+    if let Ok(x) = &r {
+        assert!(x.len() == 5, "C06:abit:l+3rho-local-bits");
+        if x.len() == 5 {
+            assert!(x[0] == b[0] && x[1] == b[1] && x[2] == b[2] && x[3] == b[3] && x[4] == b[4], "C06:abit:local-bit-k-is-the-k-th-random-draw");
+        }
+    }
+    kani::cover!(ok, "fabitn_head_reachable");
+    std::mem::forget(r);
+}
